@@ -44,6 +44,38 @@ theorem repair_completes (B : HBlock) (env : Nat → Content) (cap : Nat) (hwf :
   obtain ⟨p1, _, p3⟩ := run_no_panic env cap evs σ hinv.rootsKnown hstore
   exact ⟨hq, hg, fun hn => h3 hn (by rw [hc]; rfl), p1, h1, p3⟩
 
+/-- **Repair of a block the node knows nothing about** (`repair_completes` composed with `repInv_begin`):
+    on any requester state whose blockstore satisfies the invariant and that has no request, proven root
+    or repair spot for `B` yet and does not hold it, `repair_block(id B)` followed by any admissible
+    schedule that is fair towards `B` stores and announces `B`, and nothing panics. -/
+theorem repair_completes_from_start (B : HBlock) (env : Nat → Content) (cap : Nat) (hwf : B.WF env cap)
+    (hroots : ∀ i, i < B.n → B.root i ≠ 0)
+    (sdH : SlotData) (hH : Holds B cap sdH)
+    (σ : Sys) (hstore : StoreInv cap σ.store) (hrk : RootsKnown σ.st)
+    (hnone : getBlock (storeGet cap σ.store B.slot) B.block.hash = none)
+    (hspot : repGet (storeGet cap σ.store B.slot).rep B.block.hash = none)
+    (hnoroots : ∀ i, rootGet σ.st.sliceRoots (bidOf B, i) = none)
+    (hnoreq : ∀ r ∈ σ.st.outstanding, r.bid ≠ bidOf B)
+    (evs : List Ev) (hadm : ∀ e ∈ evs, Admissible B e)
+    (hfair : Fair env cap (respOf sdH) (bidOf B) (stepEv env cap σ (.start (bidOf B))).1 evs) :
+    (∀ r ∈ (run env cap σ (.start (bidOf B) :: evs)).1.st.outstanding, r.bid ≠ bidOf B) ∧
+    getBlock (storeGet cap (run env cap σ (.start (bidOf B) :: evs)).1.store B.slot) B.block.hash = some B.block ∧
+    (∃ o ∈ (run env cap σ (.start (bidOf B) :: evs)).2, Announced B o) ∧
+    (∀ o ∈ (run env cap σ (.start (bidOf B) :: evs)).2, o.panic = false) := by
+  have hinv := repInv_begin B env cap hwf.npos σ (hstore B.slot).2.1 (hstore B.slot).2.2 hnone hspot hrk hnoroots hnoreq
+  have hs0 := stepEv_no_panic env cap σ (.start (bidOf B)) hrk hstore
+  have hstore' : (stepEv env cap σ (.start (bidOf B))).1.store = σ.store := rfl
+  obtain ⟨h1, h2, h3, h4, _, _⟩ := repair_completes B env cap hwf hroots sdH hH _ hinv (by rw [hstore']; exact hstore) evs hadm hfair
+  have hsp : (spotOf cap B (stepEv env cap σ (.start (bidOf B))).1.store).completed = none := by
+    rw [hstore']; unfold spotOf; rw [hspot]; rfl
+  obtain ⟨o, ho, ha⟩ := h3 hsp
+  simp only [run]
+  refine ⟨h1, h2, ⟨o, List.mem_cons_of_mem _ ho, ha⟩, ?_⟩
+  intro o' ho'
+  rcases List.mem_cons.mp ho' with rfl | ho'
+  · exact hs0.1
+  · exact h4 o' ho'
+
 /-- **Fair schedules exist from every state, and are finite** (the hypotheses of `repair_completes` are
     satisfiable after *any* admissible prefix): from every state satisfying `RepInv` the holder answering
     the outstanding requests one at a time is a finite, admissible, fair schedule. The measure is the
@@ -137,12 +169,16 @@ theorem repair_store_total (env : Nat → Content) (sd : SlotData) (h : H) (s : 
   ⟨(addRepair_sinv env sd h s hinv).2, (addRepair_sinv env sd h s hinv).1⟩
 
 /-- the blockstore invariant is an invariant: it holds initially and after every
-    `add_shred_from_dissemination` / `add_shred_from_repair`, none of which panics -/
+    `add_shred_from_dissemination` / `add_shred_from_repair` (none of which panics) and after every
+    `add_own_slice` that passes its own `assert!(last_slice.is_none())` with a parent on the first slice -/
 theorem blockstore_invariant (env : Nat → Content) (cap slot : Nat) :
     SInv (SlotData.new cap slot) ∧
     (∀ sd s, SInv sd → SInv (addDissem env sd s).1 ∧ (addDissem env sd s).2.1 ≠ .panic) ∧
-    (∀ sd h s, SInv sd → SInv (addRepair env sd h s).1 ∧ (addRepair env sd h s).2.1 ≠ .panic) :=
-  ⟨sinv_new cap slot, fun sd s h => addDissem_sinv env sd s h, fun sd h s hi => addRepair_sinv env sd h s hi⟩
+    (∀ sd h s, SInv sd → SInv (addRepair env sd h s).1 ∧ (addRepair env sd h s).2.1 ≠ .panic) ∧
+    (∀ sd c sz parent txs, SInv sd → sd.dis.lastSlice = none → (c.slice = 0 → parent.isSome) →
+      SInv (addOwn sd c sz parent txs).1) :=
+  ⟨sinv_new cap slot, fun sd s h => addDissem_sinv env sd s h, fun sd h s hi => addRepair_sinv env sd h s hi,
+    fun sd c sz parent txs h1 h2 h3 => addOwn_sinv sd c sz parent txs h1 h2 h3⟩
 
 /-- **The repair task never panics**: with the two invariants (`RootsKnown`: proven in `Props/C14.lean`
     to hold along every run; `StoreInv`) no response whatsoever reaches the `unreachable!`, a blockstore
